@@ -867,6 +867,22 @@ class Node:
                         raise UniqueConstraintError(
                             f"Node.data already exists in parent: {c}"
                         )
+                if with_clones:
+                    # A clone nested directly below another clone moves its
+                    # children up more than one level
+                    hole = n._parent
+                    while hole._data_id == n._data_id and hole._parent is not None:
+                        sibling_ids = {
+                            s._data_id
+                            for s in hole._parent._children  # type: ignore
+                            if s is not hole
+                        }
+                        for c in n._children or ():
+                            if c._data_id in sibling_ids:
+                                raise UniqueConstraintError(
+                                    f"Node.data already exists in parent: {c}"
+                                )
+                        hole = hole._parent
 
         if with_clones:
             for c in self.get_clones():  # Excluding self
